@@ -386,6 +386,40 @@ func lookalikes() {
 	}
 }
 
+// statusSweep: one message of every channel status byte 80..EF (every kind on
+// every channel), surrounded by meta events and by a message of a neighbouring
+// channel: each lands on the track of its own channel.
+func statusSweep() {
+	for st := 0x80; st <= 0xEF; st++ {
+		m := []byte{byte(st), 0x10, 0x20}
+		if st >= 0xC0 && st <= 0xDF {
+			m = m[:2]
+		}
+		other := []byte{0x90 | byte((st+1)&0x0F), 0x01, 0x02}
+		s := smf.New()
+		var t smf.Track
+		var src []refsmf.Event
+		add := func(d uint32, msg []byte) {
+			t.Add(d, msg)
+			src = append(src, refsmf.Event{Delta: d, Msg: msg})
+		}
+		add(0, smf.MetaText("a"))
+		add(1, other)
+		add(2, m)
+		add(0, smf.MetaText("b"))
+		add(3, m)
+		t.Close(1)
+		src = append(src, refsmf.Event{Delta: 1, Msg: refsmf.EOT})
+		s.Add(t)
+		ctx.Eval()
+		ctx.Add("status_sweep_files", 1)
+		sig, what := convCheck(s, src)
+		if sig != "" && ctx.SigCount(sig+":status-sweep") < 10 {
+			ctx.Violation(sig+":status-sweep", map[string]interface{}{"kind": "lookalike", "message": engine.Hex(m), "what": what})
+		}
+	}
+}
+
 func sortStrings(a []string) {
 	for i := 1; i < len(a); i++ {
 		for j := i; j > 0 && a[j] < a[j-1]; j-- {
@@ -433,7 +467,7 @@ func main() {
 	})
 	ctx.Jobs("search", len(jobs), func(j int) { sp.RunPlanCfgShard(ctx, jobs[j].p, jobs[j].cfg, jobs[j].op, check) })
 	ctx.Jobs("dense", 1, func(j int) { dense() })
-	ctx.Jobs("lookalikes", 1, func(j int) { lookalikes() })
+	ctx.Jobs("lookalikes", 1, func(j int) { lookalikes(); statusSweep() })
 	ctx.Set("traces_validated_against_impl", ctx.GetInt("transitions"))
 	ctx.Set("max_depth", ctx.GetInt("max:depth"))
 	ctx.NontrivialN(ctx.GetInt("files_with_2plus_channels"))
@@ -447,6 +481,7 @@ func replay() {
 	var sig, what string
 	if m["kind"] == "lookalike" {
 		lookalikes()
+		statusSweep()
 		ctx.Finish("replay")
 	}
 	if m["kind"] == "dense" {
